@@ -118,6 +118,10 @@ def mutations(c, label, m, tup, all_names_by_kind):
     for b in ["null", "[]", "0", "\"x\"", "true"]:
         yield ("body_scalar", "{%s:%s}" % (q(name), b))
     args = list(zip(m.args, tup))
+    # the arguments as a positional list instead of a keyed object (self-describing formats allow it, this JSON decoder does not)
+    yield ("positional_body", "{%s:[%s]}" % (q(name), ",".join(v for a, v in args)))
+    if len(args) >= 2:
+        yield ("positional_body", "{%s:[%s]}" % (q(name), ",".join(v for a, v in args[:-1])))
     for i in range(len(args)):
         rest = args[:i] + args[i + 1:]
         yield ("missing_field", "{%s:{%s}}" % (q(name), ",".join("%s:%s" % (q(bare(a.name)), v) for a, v in rest)))
